@@ -167,7 +167,7 @@ pub struct Opts {
     pub namings: &'static [&'static str],
     pub foreign: bool,       // near-miss foreign files in the directory (C14)
     pub exist: bool,         // existing_log_files observations (C16)
-    pub bg: bool,            // cleanup in the background thread: observations only after shutdown (C07)
+    pub bg: u8,            // cleanup in the background thread: observations only after shutdown (C07)
 }
 
 fn cfg_line(rot: &Option<String>, append: bool, cap: Option<u64>, symlink: bool, has_suffix: bool) -> String {
@@ -175,7 +175,7 @@ fn cfg_line(rot: &Option<String>, append: bool, cap: Option<u64>, symlink: bool,
 }
 
 pub fn gen_hist(o: &Opts, r: &mut Rng, k: u64, tier: &str) -> Vec<String> {
-    let mut c = vec![format!("CASE flw {} {k}", o.prop)];
+    let mut c = vec![format!("CASE flw {} {}{k}", o.prop, ["", "bl", "bf", "ba", "bb"][o.bg as usize])];
     let naming = *r.pick(o.namings);
     let no_rot = o.ext && r.chance(1, 3) || (o.prop == "C06" && r.chance(1, 8));
     let (spec, has_suffix) = gen_spec(r, naming);
@@ -220,7 +220,8 @@ pub fn gen_hist(o: &Opts, r: &mut Rng, k: u64, tier: &str) -> Vec<String> {
         c.push(format!("MODE {m}"));
     }
     let symlink = r.chance(1, 4);
-    if o.bg { c.push("BGCLEAN 1".into()); is_async = true; /* no intermediate observations */ }
+    if o.bg == 1 { c.push("BGCLEAN 1".into()); /* lock-step: the schedule of the synchronous cleanup */ }
+    if o.bg >= 2 { c.push(format!("BGCLEAN {}", o.bg)); is_async = true; /* free-running or adversarial: no intermediate observations */ }
     let mut append = o.restarts > 0 && r.chance(1, 2);
     c.push(format!("CFG {}", cfg_line(&rot, append, cap, symlink, has_suffix)));
     if o.foreign {
@@ -240,7 +241,7 @@ pub fn gen_hist(o: &Opts, r: &mut Rng, k: u64, tier: &str) -> Vec<String> {
         // the whole history (incl. restarts) stays within one day: 2024-06-15 10:00:00 UTC + small steps
         clock = Clock { epoch: 1_718_445_600 + r.below(1000) as i64, small: true };
     }
-    let frozen = is_async && !o.bg;
+    let frozen = is_async && o.bg == 0;
     let nops = r.range(3, if tier == "thorough" { o.max_ops * 3 } else { o.max_ops });
     let mut seq = 0u64;
     let mut restarts_left = if o.restarts > 0 { r.range(1, o.restarts) } else { 0 };
@@ -315,8 +316,12 @@ pub fn gen_hist(o: &Opts, r: &mut Rng, k: u64, tier: &str) -> Vec<String> {
     c.push("SHUT".into());
     c.push("READ".into());
     c.push("PARTS".into());
-    c.push("SNAP".into());
-    c.push("LINK".into());
+    if o.bg < 2 {
+        // with a free-running cleanup thread the NAMES depend on the schedule (which files the
+        // collision check still sees); the stream and its partition do not
+        c.push("SNAP".into());
+        c.push("LINK".into());
+    }
     if o.exist {
         for sel in ["p", "pc", "pcr", "c", "r"] { c.push(format!("EXIST {sel} _")); }
         // a new logger on the same directory, asked before it has written anything
@@ -336,23 +341,26 @@ fn gen_with(o: Opts, tier: &str, seed: u64, quick: u64, thorough: u64) -> Vec<Ve
 const ALL: &[&str] = &["num", "numd", "ts", "tsd"];
 
 pub fn gen_c08(tier: &str, seed: u64) -> Vec<Vec<String>> {
-    gen_with(Opts { prop: "C08", size: true, age: false, force_rot: false, restarts: 1, cleanup: false, faults: false, ext: false, modes: true, max_ops: 40, namings: ALL, foreign: false, exist: false, bg: false }, tier, seed, 500, 8000)
+    gen_with(Opts { prop: "C08", size: true, age: false, force_rot: false, restarts: 1, cleanup: false, faults: false, ext: false, modes: true, max_ops: 40, namings: ALL, foreign: false, exist: false, bg: 0 }, tier, seed, 500, 8000)
 }
 pub fn gen_c09(tier: &str, seed: u64) -> Vec<Vec<String>> {
-    gen_with(Opts { prop: "C09", size: false, age: true, force_rot: false, restarts: 1, cleanup: false, faults: false, ext: false, modes: false, max_ops: 40, namings: ALL, foreign: false, exist: false, bg: false }, tier, seed, 500, 8000)
+    gen_with(Opts { prop: "C09", size: false, age: true, force_rot: false, restarts: 1, cleanup: false, faults: false, ext: false, modes: false, max_ops: 40, namings: ALL, foreign: false, exist: false, bg: 0 }, tier, seed, 500, 8000)
 }
 pub fn gen_c06(tier: &str, seed: u64) -> Vec<Vec<String>> {
-    gen_with(Opts { prop: "C06", size: true, age: true, force_rot: true, restarts: 4, cleanup: false, faults: false, ext: false, modes: false, max_ops: 40, namings: ALL, foreign: false, exist: false, bg: false }, tier, seed, 500, 6000)
+    gen_with(Opts { prop: "C06", size: true, age: true, force_rot: true, restarts: 4, cleanup: false, faults: false, ext: false, modes: false, max_ops: 40, namings: ALL, foreign: false, exist: false, bg: 0 }, tier, seed, 500, 6000)
 }
 pub fn gen_c07(tier: &str, seed: u64) -> Vec<Vec<String>> {
     let mut v = gen_c07_sync(tier, seed);
     // the same histories with the cleanup in the background thread: after shutdown() the
     // directory must be what the synchronous cleanup leaves
-    v.extend(gen_with(Opts { prop: "C07", size: true, age: true, force_rot: false, restarts: 1, cleanup: true, faults: false, ext: false, modes: false, max_ops: 40, namings: ALL, foreign: false, exist: false, bg: true }, tier, seed ^ 0xB6, 150, 3000));
+    v.extend(gen_with(Opts { prop: "C07", size: true, age: true, force_rot: true, restarts: 1, cleanup: true, faults: false, ext: false, modes: false, max_ops: 40, namings: ALL, foreign: false, exist: false, bg: 1 }, tier, seed ^ 0xB6, 150, 3000));
+    v.extend(gen_with(Opts { prop: "C07", size: true, age: true, force_rot: false, restarts: 1, cleanup: true, faults: false, ext: false, modes: false, max_ops: 40, namings: ALL, foreign: false, exist: false, bg: 2 }, tier, seed ^ 0xB7, 100, 3000));
+    v.extend(gen_with(Opts { prop: "C07", size: true, age: true, force_rot: false, restarts: 1, cleanup: true, faults: false, ext: false, modes: false, max_ops: 40, namings: ALL, foreign: false, exist: false, bg: 3 }, tier, seed ^ 0xB8, 100, 3000));
+    v.extend(gen_with(Opts { prop: "C07", size: true, age: true, force_rot: false, restarts: 1, cleanup: true, faults: false, ext: false, modes: false, max_ops: 40, namings: ALL, foreign: false, exist: false, bg: 4 }, tier, seed ^ 0xB9, 100, 3000));
     v
 }
 fn gen_c07_sync(tier: &str, seed: u64) -> Vec<Vec<String>> {
-    gen_with(Opts { prop: "C07", size: true, age: true, force_rot: true, restarts: 2, cleanup: true, faults: false, ext: false, modes: false, max_ops: 40, namings: ALL, foreign: false, exist: false, bg: false }, tier, seed, 500, 6000)
+    gen_with(Opts { prop: "C07", size: true, age: true, force_rot: true, restarts: 2, cleanup: true, faults: false, ext: false, modes: false, max_ops: 40, namings: ALL, foreign: false, exist: false, bg: 0 }, tier, seed, 500, 6000)
 }
 /// raw byte chunks through `ArcFileLogWriter: io::Write` under every write mode
 fn gen_c15_chunks(tier: &str, seed: u64) -> Vec<Vec<String>> {
@@ -407,22 +415,22 @@ pub fn gen_c15(tier: &str, seed: u64) -> Vec<Vec<String>> {
 }
 
 fn gen_c15_records(tier: &str, seed: u64) -> Vec<Vec<String>> {
-    gen_with(Opts { prop: "C15", size: true, age: false, force_rot: true, restarts: 0, cleanup: false, faults: false, ext: false, modes: true, max_ops: 40, namings: ALL, foreign: false, exist: false, bg: false }, tier, seed, 500, 6000)
+    gen_with(Opts { prop: "C15", size: true, age: false, force_rot: true, restarts: 0, cleanup: false, faults: false, ext: false, modes: true, max_ops: 40, namings: ALL, foreign: false, exist: false, bg: 0 }, tier, seed, 500, 6000)
 }
 pub fn gen_c18(tier: &str, seed: u64) -> Vec<Vec<String>> {
-    gen_with(Opts { prop: "C18", size: true, age: false, force_rot: true, restarts: 0, cleanup: false, faults: false, ext: true, modes: false, max_ops: 40, namings: &["num", "ts"], foreign: false, exist: false, bg: false }, tier, seed, 500, 6000)
+    gen_with(Opts { prop: "C18", size: true, age: false, force_rot: true, restarts: 0, cleanup: false, faults: false, ext: true, modes: false, max_ops: 40, namings: &["num", "ts"], foreign: false, exist: false, bg: 0 }, tier, seed, 500, 6000)
 }
 pub fn gen_c19(tier: &str, seed: u64) -> Vec<Vec<String>> {
-    gen_with(Opts { prop: "C19", size: true, age: true, force_rot: true, restarts: 0, cleanup: true, faults: true, ext: false, modes: false, max_ops: 40, namings: ALL, foreign: false, exist: false, bg: false }, tier, seed, 500, 6000)
+    gen_with(Opts { prop: "C19", size: true, age: true, force_rot: true, restarts: 0, cleanup: true, faults: true, ext: false, modes: false, max_ops: 40, namings: ALL, foreign: false, exist: false, bg: 0 }, tier, seed, 500, 6000)
 }
 
 pub fn gen_c14(tier: &str, seed: u64) -> Vec<Vec<String>> {
-    let mut v = gen_with(Opts { prop: "C14", size: true, age: true, force_rot: true, restarts: 2, cleanup: true, faults: false, ext: false, modes: false, max_ops: 40, namings: ALL, foreign: true, exist: false, bg: false }, tier, seed, 400, 5000);
+    let mut v = gen_with(Opts { prop: "C14", size: true, age: true, force_rot: true, restarts: 2, cleanup: true, faults: false, ext: false, modes: false, max_ops: 40, namings: ALL, foreign: true, exist: false, bg: 0 }, tier, seed, 400, 5000);
     v.extend(crate::props::names::gen_names_cases("C14", tier, seed));
     v
 }
 pub fn gen_c16(tier: &str, seed: u64) -> Vec<Vec<String>> {
-    let mut v = gen_with(Opts { prop: "C16", size: true, age: true, force_rot: true, restarts: 2, cleanup: true, faults: false, ext: false, modes: false, max_ops: 30, namings: ALL, foreign: false, exist: true, bg: false }, tier, seed, 400, 5000);
+    let mut v = gen_with(Opts { prop: "C16", size: true, age: true, force_rot: true, restarts: 2, cleanup: true, faults: false, ext: false, modes: false, max_ops: 30, namings: ALL, foreign: false, exist: true, bg: 0 }, tier, seed, 400, 5000);
     v.extend(crate::props::names::gen_names_cases("C16", tier, seed));
     v
 }
